@@ -499,10 +499,16 @@ class ReadOnlyIndexedFieldArray:
         :return: Item value from dataset
         """
         if isinstance(item, slice):
-            start = item.start if item.start is not None else 0
-            stop = item.stop if item.stop is not None else len(self._indices) - 1
-            step = item.step
-            # TODO: validate slice
+            # Python sequence semantics: negative bounds count from the end, bounds are clamped to the rows,
+            # a missing bound depends on the sign of the step (slice.indices raises ValueError for step 0)
+            rows = range(*item.indices(len(self)))
+            if rows.step != 1:
+                if len(rows) == 0:
+                    return []
+                first = min(rows[0], rows[-1])
+                block = self[first:max(rows[0], rows[-1]) + 1]
+                return [block[r - first] for r in rows]
+            start, stop = rows.start, max(rows.start, rows.stop)
             index = self._indices[start:stop + 1]
             bytestr = self._values[index[0]:index[-1]]
             results = [None] * (len(index) - 1)
@@ -512,9 +518,12 @@ class ReadOnlyIndexedFieldArray:
                     bytestr[index[ir] - np.int64(startindex):
                             index[ir + 1] - np.int64(startindex)].tobytes().decode()
             return results
-        elif isinstance(item, int):
-            if item >= len(self._indices) - 1:
-                raise ValueError(f"Index is out of range, item ({item}) >= len(self._indices) - 1 ({len(self._indices) - 1})")
+        elif isinstance(item, (int, np.integer)):
+            nrows = len(self)
+            if item < -nrows or item >= nrows:
+                raise ValueError(f"Index is out of range, item ({item}) is not a row of a field of length {nrows}")
+            if item < 0:
+                item += nrows
             start, stop = self._indices[item:item + 2]
             if start == stop:
                 return ''
@@ -599,10 +608,16 @@ class WriteableIndexedFieldArray:
         :return: Item value from dataset
         """
         if isinstance(item, slice):
-            start = item.start if item.start is not None else 0
-            stop = item.stop if item.stop is not None else len(self._indices) - 1
-            step = item.step
-            # TODO: validate slice
+            # Python sequence semantics: negative bounds count from the end, bounds are clamped to the rows,
+            # a missing bound depends on the sign of the step (slice.indices raises ValueError for step 0)
+            rows = range(*item.indices(len(self)))
+            if rows.step != 1:
+                if len(rows) == 0:
+                    return []
+                first = min(rows[0], rows[-1])
+                block = self[first:max(rows[0], rows[-1]) + 1]
+                return [block[r - first] for r in rows]
+            start, stop = rows.start, max(rows.start, rows.stop)
 
             index = self._indices[start:stop + 1]
             if len(index) == 0:
@@ -617,9 +632,12 @@ class WriteableIndexedFieldArray:
                 rstr = rbytes.decode()
                 results[ir] = rstr
             return results
-        elif isinstance(item, int):
-            if item >= len(self._indices) - 1:
-                raise ValueError(f"Index is out of range, item ({item}) >= len(self._indices) - 1 ({len(self._indices) - 1})")
+        elif isinstance(item, (int, np.integer)):
+            nrows = len(self)
+            if item < -nrows or item >= nrows:
+                raise ValueError(f"Index is out of range, item ({item}) is not a row of a field of length {nrows}")
+            if item < 0:
+                item += nrows
             start, stop = self._indices[item:item + 2]
             if start == stop:
                 return ''
